@@ -72,16 +72,13 @@ def nb_lineset(nb):
     for c in nb['cells']: out.update(tlines(src_text(c)))
     return out
 
-def judge_merge(case, res):
-    """the property on one merged notebook.  Returns (signature, detail) or (None, None)."""
-    if 'err' in res: return None, None           # completion is C03's subject
-    ok = res['ok']
+def merge_problems(case, msrc, conflicts):
     base, local, remote = case['base'], case['local'], case['remote']
     bl, ll, rl = nb_lineset(base), nb_lineset(local), nb_lineset(remote)
-    msrc = ok['sources']
     mlines = [tlines(s) for s in msrc]
     ms = set(x for ls in mlines for x in ls)
     probs = []
+    # survival: a line is "added" by a side when it occurs in that side's sources and in no base source (conservative)
     for side, ls in (('local', ll), ('remote', rl)):
         for x in sorted(ls):
             if nonblank(x) and x not in bl and x not in ms: probs.append(['dropped', side, x])
@@ -96,31 +93,47 @@ def judge_merge(case, res):
             cid = c.get('id')
             if cid in lb and cid in rb:
                 for x, y in clashes(src_text(c), src_text(lb[cid]), src_text(rb[cid])):
-                    if not ok['conflicts']: probs.append(['unflagged', cid, x, y])
-                    if not any(x in ls and y in ls for ls in mlines): probs.append(['variant-missing', cid, x, y])
-    if not probs: return None, None
-    return signature(probs, ok), {'problems': probs[:8], 'tool': ok['tool'], 'merged_sources': msrc,
-                                  'conflicts': ok['conflicts'], 'calls': ok['calls'][:3]}
+                    if not conflicts: probs.append(['unflagged', cid, x, y])
+                    if not any(x in branches(ls)[0] and y in branches(ls)[1] for ls in mlines): probs.append(['variant-missing', cid, x, y])
+    return probs
 
 GLUE = re.compile(r'^(.+?)(\|{7} base|={7}|>{7} remote)$')
-def signature(probs, ok):
-    kinds = sorted(set(p[0] for p in probs))
-    tool = ok.get('tool')
-    if tool == 'diff3' and set(kinds) <= {'dropped', 'fabricated'}:
-        # GNU diff3 -m writes an unterminated last line and the next marker on one line ("X||||||| base")
-        unterminated = set()
-        for b, l, r, m, st in ok['calls']:
-            for t in (b, l, r):
-                if t and not t.endswith('\n'): unterminated.add(tlines(t)[-1])
-        glued = {}
-        for p in probs:
-            if p[0] == 'fabricated':
-                m = GLUE.match(p[1])
-                if not m or m.group(1) not in unterminated: glued = None; break
-                glued[m.group(1)] = True
-        if glued is not None and glued and all(p[2] in glued for p in probs if p[0] == 'dropped'):
-            return 'diff3-glues-marker-to-unterminated-last-line'
-    return '+'.join(kinds) + ':tool=' + str(tool)
+def unterminated_last_lines(calls):
+    out = set()
+    for c in calls:
+        for t in c[:3]:
+            if t and not t.endswith('\n'): out.add(tlines(t)[-1])
+    return out
+def unglue(m, unterminated):
+    """undo what GNU diff3 -m does to an unterminated last line: "X||||||| base" -> "X" / "||||||| base" """
+    out = []
+    for ln in m.splitlines(True):
+        body = chomp(ln); mm = GLUE.match(body)
+        if mm and mm.group(1) in unterminated: out.append(mm.group(1) + '\n' + mm.group(2) + ln[len(body):])
+        else: out.append(ln)
+    return ''.join(out)
+
+DIFF3_SIG = 'diff3-glues-marker-to-unterminated-last-line'
+def judge_merge(case, res):
+    """the property on one merged notebook.  Returns (signature, detail) or (None, None)."""
+    if 'err' in res: return None, None           # completion is C03's subject
+    ok = res['ok']
+    probs = merge_problems(case, ok['sources'], ok['conflicts'])
+    if not probs: return None, None
+    sig = '+'.join(sorted(set(p[0] for p in probs))) + ':tool=' + str(ok['tool'])
+    if ok['tool'] == 'diff3':
+        # signature of the known diff3 defect: every problem disappears once glued "<last line><marker>" lines are split
+        ut = unterminated_last_lines(ok['calls'])
+        if ut and not merge_problems(case, [unglue(s, ut) for s in ok['sources']], ok['conflicts']): sig = DIFF3_SIG
+    return sig, {'problems': probs[:8], 'tool': ok['tool'], 'merged_sources': ok['sources'],
+                 'conflicts': ok['conflicts'], 'calls': ok['calls'][:3]}
+
+def contract_signature(b, l, r, m, st, cfg, probs):
+    sig = '+'.join(sorted(set(p[0] for p in probs))) + ':tool=' + cfg
+    if cfg == 'diff3':
+        ut = unterminated_last_lines([(b, l, r)])
+        if ut and not contract(b, l, r, unglue(m, ut), st): return DIFF3_SIG
+    return 'tool-contract:' + sig
 
 # ------------------------------------------------------------------ sandboxes for the three tool availabilities
 class Sandbox:
@@ -480,14 +493,14 @@ def _run(chk, tier, sb):
         if len(contract_items) < (3000 if tier == 'quick' else 12000) and max(len(b_), len(l), len(r_), len(m)) < 400:
             contract_items.append('(%s, %s, %s, %s, %d%%Z, %s)' % (cs(b_), cs(l), cs(r_), cs(m), st, 'false' if probs else 'true'))
         if probs:
-            sig = signature([[p[0], None, p[1]] if p[0] == 'dropped' else p for p in probs], {'tool': cfg, 'calls': [(b_, l, r_, m, st)]})
+            sig = contract_signature(b_, l, r_, m, st, cfg, probs)
             cviol.setdefault((sig, cfg), []).append({'b': b_, 'l': l, 'r': r_, 'merged': m, 'status': st, 'problems': probs[:5]})
     for (sig, cfg), lst in sorted(cviol.items()):
         lst.sort(key=lambda c: len(c['b']) + len(c['l']) + len(c['r']))
-        # a tool call breaking the contract is a property violation of that configuration (the call IS a cell merge)
-        for c in lst[:1] if False else lst:
-            chk.violation(sig if sig.startswith('diff3-') else 'tool-contract:' + sig,
-                          {'render': {'b': c['b'], 'l': c['l'], 'r': c['r']}, 'config': cfg}, c)
+        # a tool call breaking the contract is a violation of the property in that configuration (the call IS a cell merge);
+        # the smallest case of each signature is the replay
+        for c in lst:
+            if not chk.violation(sig, {'render': {'b': c['b'], 'l': c['l'], 'r': c['r']}, 'config': cfg}, c): continue
     groups.append(('contract', 'chk_contract', 'pystr * pystr * pystr * pystr * Z * bool', contract_items))
     # ---- run the model
     try:
